@@ -1,4 +1,16 @@
-// C10 harness: instantiations for the enum with 17 enumerators (8/16/32/64-bit words)
+// C10 harness: the executable for the enum with 17 enumerators, stored in 8/16/32/64-bit
+// words (driver and main: c10_bitfield.hpp; compiled a second time, with C10_OBSERVED, by
+// c10_bitfield_x17.cpp for the record kinds outside the statement)
 #include "c10_bitfield.hpp"
 
-int c10_run_n17(int const w, c10_args const &a) { return run_enum<e17>(w, a); }
+namespace
+{
+enum class e17
+{
+  v0, v1, v2, v3, v4, v5, v6, v7, v8, v9, v10, v11,
+  v12, v13, v14, v15, v16,
+  fcppt_maximum = v16
+};
+}
+
+C10_MAIN(e17)
